@@ -112,8 +112,8 @@ type agg struct {
 	wallUS      int64
 	counts      map[string]int
 	cells       map[string]bool
-	sigs        map[string]bool
-	nontrivSigs map[string]bool
+	sigs        map[uint64]struct{} // hashes of scenario/signature (20M runs in the thorough tier)
+	nontrivSigs map[uint64]struct{}
 	samples     []any
 	violations  []sim.Record
 	loghash     map[int]string // run -> hash (first execution)
@@ -123,7 +123,7 @@ type agg struct {
 }
 
 func newAgg() *agg {
-	return &agg{counts: map[string]int{}, cells: map[string]bool{}, sigs: map[string]bool{}, nontrivSigs: map[string]bool{},
+	return &agg{counts: map[string]int{}, cells: map[string]bool{}, sigs: map[uint64]struct{}{}, nontrivSigs: map[uint64]struct{}{},
 		loghash: map[int]string{}, sigOf: map[int]string{}, classOf: map[int]string{}, perScen: map[string]int{}}
 }
 
@@ -141,10 +141,10 @@ func (a *agg) add(r sim.Record) {
 	for _, c := range r.Result.Cells {
 		a.cells[c] = true
 	}
-	key := r.Scenario + "/" + r.Result.Sig
-	a.sigs[key] = true
+	key := choice.Hash64(r.Scenario, r.Result.Sig)
+	a.sigs[key] = struct{}{}
 	if r.Result.Nontrivial {
-		a.nontrivSigs[key] = true
+		a.nontrivSigs[key] = struct{}{}
 	}
 	if r.Result.Sample != nil && len(a.samples) < 6 {
 		a.samples = append(a.samples, map[string]any{"scenario": r.Scenario, "seed": r.Seed, "run": r.Run, "case": r.Result.Sample})
